@@ -154,11 +154,11 @@ func c07Gen(r *Rng, tier string, idx int) (string, func() string) {
 	f := c07GetFacts()
 	switch {
 	case idx == 0:
-		return c07WRCase(r, "LJH22", true, f)
+		return c07WRCase(r, "LJH22", true, f, 0)
 	case idx == 1:
-		return c07WRCase(r, "LJH3", true, f)
+		return c07WRCase(r, "LJH3", true, f, 0)
 	case idx == 2:
-		return c07WRCase(r, "OFF", true, f)
+		return c07WRCase(r, "OFF", true, f, 0)
 	case idx == 3:
 		return c07PDCase(r, []string{"ljh22", "ljh3", "off"}, true)
 	case idx == 4:
@@ -166,9 +166,19 @@ func c07Gen(r *Rng, tier string, idx int) (string, func() string) {
 	case idx >= 5 && idx <= 12:
 		return c07ABCase(r, tier, idx-4, f)
 	}
+	// Flush/Close with the disk stalled for SECONDS (longer than any plausible give-up timeout).  Each
+	// sits in a different worker chunk of the parent (main.go splits the index range over 12 workers), so
+	// they run concurrently with the rest and with each other.
+	if tier == "thorough" {
+		if idx%417 == 30 {
+			return c07WRCase(r, []string{"LJH22", "LJH3", "OFF"}[(idx/417)%3], false, f, 3000+500*((idx/417)%5))
+		}
+	} else if idx == 30 || idx == 60 || idx == 90 {
+		return c07WRCase(r, []string{"LJH22", "LJH3", "OFF"}[idx/30-1], false, f, 3000)
+	}
 	switch c := r.Intn(1000); {
 	case c < 25:
-		return c07WRCase(r, []string{"LJH22", "LJH3", "OFF"}[r.Intn(3)], false, f)
+		return c07WRCase(r, []string{"LJH22", "LJH3", "OFF"}[r.Intn(3)], false, f, 0)
 	case c < 30:
 		ws := [][]string{{"ljh22"}, {"ljh3"}, {"off"}, {"ljh22", "off"}, {"ljh22", "ljh3", "off"}, {"ljh3", "ljh22"}}
 		return c07PDCase(r, ws[r.Intn(len(ws))], false)
@@ -873,13 +883,19 @@ func (x *c07WR) record() {
 }
 
 // rendezvous: Flush/Close; under a stall the call hangs for a moment, then the disk resumes.
-func (x *c07WR) rendezvous(name string, call func()) {
+//
+// `stall` is how long the disk stays stalled after the call was issued.  The property holds for ANY stall
+// length, so a few directed cases keep it stalled for seconds — longer than any plausible "give up
+// waiting for the disk" timeout: a Flush/Close that returns during the stall (outstanding data cannot
+// have reached the pipe: queue full, bufio and pipe full) is then judged by the oracle on what the file
+// holds at that moment (flush-incomplete).
+func (x *c07WR) rendezvous(name string, call func(), stall time.Duration) {
 	done := make(chan struct{})
 	go func() { call(); close(done) }()
 	if !x.open {
 		select {
 		case <-done:
-		case <-time.After(500 * time.Microsecond):
+		case <-time.After(stall):
 		}
 		x.open = true
 	}
@@ -900,14 +916,22 @@ func (x *c07WR) rendezvous(name string, call func()) {
 }
 
 type c07Phase struct {
-	kind string // free n | stall rejects | F | C
+	kind string // free n | stall rejects | F | C | FL ms | CL ms (Flush / Close with the disk stalled that long)
 	n    int
 }
 
-func c07WRCase(r *Rng, kind string, hot bool, f c07Facts) (string, func() string) {
+func c07WRCase(r *Rng, kind string, hot bool, f c07Facts, long int) (string, func() string) {
 	size := r.Range(1, 6)
 	var phases []c07Phase
-	if hot {
+	if long > 0 {
+		// queue full + consumer stuck in the pipe, then Close (sometimes a Flush first) with the disk
+		// stalled for `long` ms more
+		phases = []c07Phase{{"free", r.Range(0, 8)}, {"stall", r.Range(1, 20)}}
+		if r.Chance(30) {
+			phases = append(phases, c07Phase{"FL", long}, c07Phase{"stall", r.Range(1, 10)})
+		}
+		phases = append(phases, c07Phase{"CL", long})
+	} else if hot {
 		phases = []c07Phase{{"free", 12}, {"stall", 40}, {"free", 5}, {"F", 0}, {"stall", 3}, {"F", 0}, {"free", 3}, {"C", 0}}
 	} else {
 		n := r.Range(1, 5)
@@ -980,14 +1004,19 @@ func c07WRCase(r *Rng, kind string, hot bool, f c07Facts) (string, func() string
 					x.record()
 				}
 			case "F":
-				x.rendezvous("f", x.w.flush)
+				x.rendezvous("f", x.w.flush, 500*time.Microsecond)
+			case "FL":
+				x.rendezvous("f", x.w.flush, time.Duration(ph.n)*time.Millisecond)
 			case "C":
-				x.rendezvous("c", x.w.close)
+				x.rendezvous("c", x.w.close, 500*time.Microsecond)
+				closed = true
+			case "CL":
+				x.rendezvous("c", x.w.close, time.Duration(ph.n)*time.Millisecond)
 				closed = true
 			}
 		}
 		if !closed {
-			x.rendezvous("c", x.w.close)
+			x.rendezvous("c", x.w.close, 500*time.Microsecond)
 		}
 		return fmt.Sprintf("T %d %s", len(x.toks), strings.Join(x.toks, " "))
 	}
